@@ -20,7 +20,7 @@ def module_prologues(with_clients=False):
     glue = open(os.path.join(ROOT, 'spec', 'glue.rs'), encoding='utf-8').read()
     pro = {'': glue}
     common = ('#[allow(unused_imports)] use crate::*;\n#[allow(unused_imports)] use crate::prelude::*;\n'
-              '#[allow(unused_imports)] use crate::shim::*;\n#[allow(unused_imports)] use crate::vs::*;\n#[allow(unused_imports)] use vstd::prelude::*;\n'
+              '#[allow(unused_imports)] use crate::shim::*;\n#[allow(unused_imports)] use crate::vs::*;\n#[allow(unused_imports)] use crate::consts::*;\n#[allow(unused_imports)] use vstd::prelude::*;\n'
               '#[allow(unused_imports)] use vstd::arithmetic::power::*;\n#[allow(unused_imports)] use vstd::arithmetic::mul::*;\n'
               '#[allow(unused_imports)] use vstd::arithmetic::div_mod::*;\n'
               '#[allow(unused_imports)] use vstd::std_specs::cmp::*;\n#[allow(unused_imports)] use vstd::std_specs::convert::*;\n'
@@ -45,7 +45,7 @@ def generate(units=None, repo=None, no_body_hints=(), with_clients=False, vacuit
     entries = all_entries()
     em = gen.build(entries, units, repo=repo, no_body_hints=no_body_hints, extra_false_ensures=vacuity)
     prelude = open(os.path.join(ROOT, 'spec', 'prelude.rs'), encoding='utf-8').read()
-    vs = open(os.path.join(ROOT, 'spec', 'vs.rs'), encoding='utf-8').read()
+    vs = open(os.path.join(ROOT, 'spec', 'vs.rs'), encoding='utf-8').read() + '\n' + open(os.path.join(ROOT, 'spec', 'consts.rs'), encoding='utf-8').read()
     text, line_map = gen.render(em, prelude, gen_shim() + '\n' + vs, module_prologues(with_clients or (units is None) or ('clients' in units)))
     return text, line_map, em, entries
 
